@@ -65,3 +65,13 @@ Definition c_up_notready c := match c with UpToDate false => true | _ => false e
 Definition abs_of (rs : ers) (now : time) (items : list nitem) : astate :=
   let c f := count_if (is_class f rs now) items in
   MkA (c c_nopod) (c c_ready) (c c_up_notready) (c c_oldavail) (c c_oldunavail) (c c_oldterm).
+
+(** ** what one sync does to the classes of the planning items *)
+Definition cls_after (creates deletes : list name) (nn : name) (c : nclass) : nclass :=
+  if memN nn creates then UpToDate false else if memN nn deletes then OldTerminating else c.
+
+(** [items'] = the planning items after the sync's calls were applied: a created pod is up to date and not Ready yet,
+    a pod whose deletion was requested is terminating, nothing else changed *)
+Definition synced (rs : ers) (now : time) (creates deletes : list name) (items items' : list nitem) : Prop :=
+  Forall2 (fun i i' => classify rs now i' = cls_after creates deletes (ni_name i) (classify rs now i)) items items'.
+
